@@ -1,6 +1,7 @@
 import SamplyModel.Proto
 import SamplyModel.Model.FileCreation
 import SamplyModel.Model.DownloadWrite
+import SamplyModel.Model.FileCreationAsync
 /-!
 Line protocol for C16. One case = one op line.
 
@@ -43,6 +44,19 @@ Line protocol for C16. One case = one op line.
     the symbol map itself still loads (the index is also kept in memory); then a fault-free retry.
     out: `symindexfault lookup=ok`, `observations bad=<n>`, `final symindex=absent|complete|partial:<len>`,
     `retry lookup=ok symindex=complete`.
+
+`cancelwrite site=symindex a=<FA> b=<FB> isizea=<IA> isizeb=<IB> seed=<s>`
+    creator A (a `SymbolManager` in its own process, blocking pool of ONE thread that the harness keeps busy)
+    blocks on the lock (held by the harness), gets it, opens `.part`, hands its `write_all` to the blocking pool
+    and is cancelled (future dropped) in `flush().await`; creator B (another version of the `.sym`, `IB` bytes of
+    index) then creates the `.symindex`; finally the pool thread is released and A's queued write is executed.
+    The model is `FCA.next false` (Model/FileCreationAsync.lean): the code as it is.
+    out: `cancelwrite a=cancelled part_at_cancel=<len>`, `after_b lookup=ok symindex=complete`,
+    `observations bad=<0|1>`, `final symindex=complete|bad`.
+
+In `round` ops `cw` creators are cancelled (mode=threads) or SIGKILLed (mode=procs) while they are blocked in
+flock; `sig=<S>` (mode=procs) sends S signals without SA_RESTART to every blocked flock thread (EINTR and
+retry: no transition of the model).
 
 The judge evaluates the statement of C16 on the implementation's lines only (no model involved).
 -/
@@ -260,6 +274,15 @@ def simRound (ws : List String) : List String := Id.run do
     sim := drain cfg sim (early ++ latePids ++ cwPids)
     -- the waiters that are to be cancelled are now blocked in flock: drop their futures
     for p in cwPids do
+      if (kv ws "mode").getD "threads" = "procs" then
+        -- a separate process blocked in flock is SIGKILLed
+        match sim.s.pc p with
+        | .waiting _ =>
+          match next sim.pl sim.s (.crash p) with
+          | some s' => sim := { sim with s := s', killed := p :: sim.killed }
+          | none => pure ()
+        | _ => pure ()
+      else
       match next sim.pl sim.s (.cancel p) with
       | some s' => sim := { sim with s := s', cancelled := p :: sim.cancelled }
       | none => pure ()
@@ -387,12 +410,49 @@ def simSymindexFault (ws : List String) : List String :=
   let sim := drain cfg sim [1]
   ["symindexfault lookup=ok", s!"observations bad={sim.bad}", l3, s!"retry lookup=ok symindex={sim.destClass}"]
 
+/-- the `cancelwrite` scenario on the deferred-write model of the code as it is (`joinOnDrop = false`):
+creator 9 = the harness holding the lock, 0 = A (one write), 1 = B -/
+def simCancelWrite (ws : List String) : List String :=
+  let ia := kvNat ws "isizea" 1
+  let ib := kvNat ws "isizeb" 2
+  -- A's single write covers the first `ia` bytes: all of B's file if B is not longer
+  let pl : Pid → Content := fun p => if p = 0 then [1] else if p = 1 then (if ia < ib then [1001, 1002] else [1001]) else [9]
+  let b (a : FC.Act) : FCA.Act := .base a
+  let upToCancel : List FCA.Act :=
+    [b (.step 9), b (.step 9), b (.step 9),              -- the harness: lock file, flock, (stat)
+     b (.step 0), b (.step 0),                           -- A: lock file, try-lock fails, waits
+     b (.crash 9),                                       -- the harness closes its descriptor
+     b (.step 0), b (.step 0), b (.step 0), b (.step 0), -- A: flock, stat, open .part, write_all (queued)
+     b (.cancel 0)]
+  let bRuns : List FCA.Act := (List.replicate (if ia < ib then 10 else 9) (b (.step 1)))
+  match FCA.run false pl FCA.State.init upToCancel with
+  | none => ["model: schedule not executable (1)"]
+  | some s1 =>
+    let partLen := match s1.partDisk with
+      | some c => if c.isEmpty then "0" else toString ia
+      | none => "-1"
+    let how := if s1.base.pc 0 = .dead then "cancelled" else "finished"
+    match FCA.run false pl s1 bRuns with
+    | none => ["model: schedule not executable (2)"]
+    | some s2 =>
+      let cls (s : FCA.State) : String := match s.destDisk with
+        | none => "absent"
+        | some c => if c = pl 1 then "complete" else "bad"
+      let bOk := s2.base.pc 1 = .doneCreated
+      -- the blocking pool executes what is still queued
+      let s3 := (List.range s2.inflight.length).foldl (fun s _ => (FCA.next false pl s (.land 0)).getD s) s2
+      [s!"cancelwrite a={how} part_at_cancel={partLen}",
+       s!"after_b lookup={if bOk then "ok" else "err"} symindex={cls s2}",
+       s!"observations bad={if cls s3 = "bad" ∨ cls s2 = "bad" then 1 else 0}",
+       s!"final symindex={cls s3}"]
+
 def model (ls : List String) : List String :=
   match ls with
   | [l] =>
     let ws := words l
     match ws.head? with
     | some "symindexfault" => simSymindexFault ws
+    | some "cancelwrite" => simCancelWrite ws
     | some "download" => simDownload ws
     | some "trace" => simTrace ws
     | some "round" => simRound ws
@@ -471,12 +531,24 @@ def judgeSymindexFault (_ws impl : List String) : Bool × String :=
     else (true, "ok")
   | _, _, _, _ => (false, "missing summary lines")
 
+def judgeCancelWrite (_ws impl : List String) : Bool × String :=
+  match findLine impl "cancelwrite", findLine impl "after_b", findLine impl "observations", findLine impl "final" with
+  | some c, some a, some b, some f =>
+    if (kv c "a").getD "?" ≠ "cancelled" then (false, s!"harness: creator A was not cancelled inside its write callback ({(kv c "a").getD "?"})")
+    else if (kv a "symindex").getD "?" ≠ "complete" ∨ (kv a "lookup").getD "?" ≠ "ok" then
+      (false, s!"after the cancelled attempt a second creator did not produce the complete file (lookup={(kv a "lookup").getD "?"} symindex={(kv a "symindex").getD "?"})")
+    else if (kv f "symindex").getD "?" ≠ "complete" ∨ kvNat b "bad" 1 ≠ 0 then
+      (false, s!"[cancel-inflight-write] after a creator had returned success with the complete file at the final path, the final path holds {(kv f "symindex").getD "?"}: a write issued by the cancelled creator was executed after its lock had been released")
+    else (true, "ok")
+  | _, _, _, _ => (false, "missing summary lines")
+
 def judge (ops impl : List String) : Bool × String :=
   match ops with
   | [l] =>
     let ws := words l
     match ws.head? with
     | some "symindexfault" => judgeSymindexFault ws impl
+    | some "cancelwrite" => judgeCancelWrite ws impl
     | some "download" => judgeDownload ws impl
     | some "trace" => judgeTrace ws impl
     | some "round" => judgeRound ws impl
